@@ -14,13 +14,25 @@ ROUND_TRIP_TOKENS = {
     "Offset": ["+", "-", "H", "HH", "m", "mm", "s", "ss", ":", "'x'", "\\:", " "],
     "LocalTime": ["H", "HH", "h", "hh", "m", "mm", "s", "ss", "fff", "ffffff", "fffffffff", "FFF", "FFFFFFFFF", ".fff", ".FFF", ";fff", ";FFFFFFFFF",
                   "t", "tt", ":", ".", " ", "'at'", "\\h"],
-    "LocalDate": ["yyyy", "uuuu", "u", "M", "MM", "MMM", "MMMM", "d", "dd", "ddd", "dddd", "g", "gg", "c", "/", "-", " ", "'of'", ",", "\\d"],
+    "LocalDate": ["yyyy", "uuuu", "uuu", "uu", "u", "M", "MM", "MMM", "MMMM", "d", "dd", "ddd", "dddd", "g", "gg", "c", "/", "-", " ", "'of'", ",", "\\d"],
     "AnnualDate": ["M", "MM", "MMM", "MMMM", "d", "dd", "/", "-", " ", "'of'"],
 }
 ROUND_TRIP_TOKENS["Duration"] = ["D", "DD", "H", "HH", "h", "hh", "M", "MM", "m", "mm", "S", "SS", "s", "ss", "+", "-", ":", ".", " ", "'d'",
                                  "fff", "fffffffff", "FFF", "FFFFFFFFF", ".fff", ".FFF", ".FFFFFFFFF"]
-ROUND_TRIP_TOKENS["Instant"] = ["uuuu", "yyyy", "MM", "M", "dd", "d", "HH", "H", "mm", "m", "ss", "s", "fff", "FFFFFFFFF", ";FFF", ".fff", "'T'", "'Z'", ":", "-", "/", " "]
-ROUND_TRIP_TOKENS["LocalDateTime"] = sorted(set(ROUND_TRIP_TOKENS["LocalDate"] + ROUND_TRIP_TOKENS["LocalTime"] + ["'T'"]))
+ROUND_TRIP_TOKENS["Instant"] = ["uuuu", "uuu", "uu", "yyyy", "MM", "M", "dd", "d", "HH", "H", "mm", "m", "ss", "s", "fff", "FFFFFFFFF", ";FFF", ".fff", "'T'", "'Z'", ":", "-", "/", " "]
+# embedded patterns: the spec sees the inner tokens spliced in (an embedded pattern captures exactly what its inner fields capture)
+EMBEDDED = {
+    "ld<uuuu-MM-dd>": ["uuuu", "-", "MM", "-", "dd"],
+    "ld<d/M/yyyy gg>": ["d", "/", "M", "/", "yyyy", " ", "gg"],
+    "ld<uu MMM d>": ["uu", " ", "MMM", " ", "d"],
+    "lt<HH:mm:ss>": ["HH", ":", "mm", ":", "ss"],
+    "lt<HH:mm:ss.fff>": ["HH", ":", "mm", ":", "ss", ".fff"],
+    "lt<H:mm:ss;FFFFFFFFF>": ["H", ":", "mm", ":", "ss", ";FFFFFFFFF"],
+    "lt<hh:mm tt>": ["hh", ":", "mm", " ", "tt"],
+    "l<uuuu-MM-dd'T'HH:mm:ss.fffffffff>": ["uuuu", "-", "MM", "-", "dd", "'T'", "HH", ":", "mm", ":", "ss", ".fffffffff"],
+    "l<d/M/uuuu H:mm>": ["d", "/", "M", "/", "uuuu", " ", "H", ":", "mm"],
+}
+ROUND_TRIP_TOKENS["LocalDateTime"] = sorted(set(ROUND_TRIP_TOKENS["LocalDate"] + ROUND_TRIP_TOKENS["LocalTime"] + ["'T'"])) + list(EMBEDDED)
 BUILTIN = {
     "LocalDate": ["iso", "full_roundtrip"],
     "LocalTime": ["extended_iso", "long_extended_iso"],
@@ -137,10 +149,12 @@ def gen(args) -> list:
                 if len(pname) == 1:
                     continue            # a single letter is a standard pattern, not a custom one
                 pat = textgen.create(typ, pname, culture)
+                tokens = [x for t in tokens for x in EMBEDDED.get(t, [t])]
         except Exception:  # noqa: BLE001 - not a valid pattern: C08's business
             continue
         for _v in range(4):
-            v = textgen.random_value(typ, rnd, cals)
+            # short absolute-year fields pad and sign small (negative) years: bias the values towards year 0 for them
+            v = textgen.random_value(typ, rnd, cals, 0.5 if any(t in ("u", "uu", "uuu") for t in tokens) else 0.08)
             if typ in ("LocalDate", "LocalDateTime") and any(t in ("MMM", "MMMM", "ddd", "dddd", "g", "gg") for t in tokens):
                 # name fields are in scope only for the 12-month tables of the culture: ISO/Gregorian dates
                 v = v.with_calendar(CalendarSystem.iso) if v.calendar.id not in ("ISO", "Gregorian") else v
@@ -227,8 +241,8 @@ def run(ctx: Ctx):
                 "pattern can represent the value (PatternSemantics.tla) and checks round trip, re-format and determinism; non-trivial = "
                 "distinct (type, pattern, culture)")
     ctx.assumptions += ["month/day/era name fields are claimed only for cultures whose 12 names are non-empty, digit-free, pairwise distinct and prefix-free, "
-                        "and for ISO/Gregorian dates", "embedded patterns (l<>, ld<>, lt<>), two-digit years and Duration/Instant custom patterns are "
-                        "exercised for determinism/re-format only; their round trip is claimed through the built-in patterns"]
+                        "and for ISO/Gregorian dates", "an embedded pattern (l<>, ld<>, lt<>) is given the meaning of its inner fields spliced into the enclosing pattern",
+                        "two-digit years (yy) are exercised for determinism/re-format only"]
 
 
 def replay(ctx, path):
